@@ -57,28 +57,38 @@ def checksum_strings(tier):
 
 
 def checksum_shard(arg):
-    digest, items = arg
+    """arg: list of (digest, items) - one executor process checks all of them in alternating chunks (state shared between the
+    digest types inside one process would stay hidden if every process saw a single type); the first list decides who goes first."""
+    parts = arg if isinstance(arg, list) else [arg]
     sh = vp.Shard()
     mon = vp.Mon("inventory")
     try:
-        for i in range(0, len(items), 2000):
-            chunk = items[i:i + 2000]
+        chunks = []
+        for digest, items in parts:
+            chunks.append([(digest, items[i:i + 500]) for i in range(0, len(items), 500)])
+        order = []
+        while any(chunks):
+            for c in chunks:
+                if c:
+                    order.append(c.pop(0))
+        for digest, chunk in order:
             rep = mon.call({"op": "checksums", "digest": digest, "items": chunk})
-            for s, r in zip(chunk, rep["results"]):
-                sh.evaluations += 1
-                want = rec_checksum(digest, s)
-                case = {"kind": "checksum", "digest": digest, "input": s}
-                if r["ok"] != want:
-                    sh.violation("checksum:%s:%s" % (digest, "accepts-invalid" if r["ok"] else "rejects-valid"),
-                                 "Checksum<%s> %s %r" % (digest, "accepts" if r["ok"] else "rejects", s), case)
-                    continue
-                if r["ok"]:
-                    pre, rest = s.split(":", 1)
-                    if r["name"] != pre or r["value"] != rest.lower() or r["rendered"] != pre + ":" + rest.lower() or r["reparse_eq"] is not True:
-                        sh.violation("checksum:%s:roundtrip" % digest, "Checksum<%s> parsed from %r renders as %r (name %r, value %r, reparse_eq %r)"
-                                     % (digest, s, r["rendered"], r["name"], r["value"], r["reparse_eq"]), case)
-                sh.nontrivial.add(("cs", digest, r["ok"], s.count(":"), len(s.split(":", 1)[-1]) if ":" in s else -1,
-                                   any(c not in HEX + ":" for c in s)))
+            if True:
+                for s, r in zip(chunk, rep["results"]):
+                    sh.evaluations += 1
+                    want = rec_checksum(digest, s)
+                    case = {"kind": "checksum", "digest": digest, "input": s}
+                    if r["ok"] != want:
+                        sh.violation("checksum:%s:%s" % (digest, "accepts-invalid" if r["ok"] else "rejects-valid"),
+                                     "Checksum<%s> %s %r" % (digest, "accepts" if r["ok"] else "rejects", s), case)
+                        continue
+                    if r["ok"]:
+                        pre, rest = s.split(":", 1)
+                        if r["name"] != pre or r["value"] != rest.lower() or r["rendered"] != pre + ":" + rest.lower() or r["reparse_eq"] is not True:
+                            sh.violation("checksum:%s:roundtrip" % digest, "Checksum<%s> parsed from %r renders as %r (name %r, value %r, reparse_eq %r)"
+                                         % (digest, s, r["rendered"], r["name"], r["value"], r["reparse_eq"]), case)
+                    sh.nontrivial.add(("cs", digest, r["ok"], s.count(":"), len(s.split(":", 1)[-1]) if ":" in s else -1,
+                                       any(c not in HEX + ":" for c in s)))
     finally:
         mon.close()
     return sh.dict()
@@ -155,10 +165,15 @@ def run(tier, seed, work):
     res.nontrivial.update(c for c in classes if c[1] >= 2)
     res.extra["resolution_classes_seen"] = len(classes)
     cs = checksum_strings(tier)
+    # every process gets a slice of every digest's strings; which digest a process meets first rotates
+    nsh = vp.NCPU
+    split = {d: vp.split(items, nsh) for d, items in cs.items()}
     shards = []
-    for d, items in cs.items():
-        shards += [(d, s) for s in vp.split(items, 6 if d == "t2" else 1)]
-    for d in vp.pmap(checksum_shard, shards):
+    for k in range(nsh):
+        ds = list(cs)
+        ds = ds[k % len(ds):] + ds[:k % len(ds)]
+        shards.append([(d, split[d][k]) for d in ds if k < len(split[d]) and split[d][k]])
+    for d in vp.pmap(checksum_shard, [s_ for s_ in shards if s_]):
         res.merge(d)
     nrt = 600 if tier == "quick" else 8000
     for d in vp.pmap(roundtrip_shard, [(seed, s) for s in vp.split(range(nrt), vp.NCPU)]):
@@ -179,7 +194,9 @@ def run(tier, seed, work):
 def replay(case, work):
     res = vp.Result("C18", "quick", 0, "exploration")
     if case["kind"] == "checksum":
-        res.merge(checksum_shard((case["digest"], [case["input"]])))
+        # (the other digest types are parsed first in the same process, as in the run that recorded the case)
+        warm = [("sha256", ["sha256:" + "a" * 64]), ("sha512", ["sha512:" + "a" * 128]), ("t2", ["t2:00ff"])]
+        res.merge(checksum_shard([w for w in warm if w[0] != case["digest"]] + [(case["digest"], [case["input"]])]))
     elif case["kind"] == "resolve":
         rep = resolve_shard((case["maxn"], 0, 1))
         for vt, t in rep.items():
